@@ -9,7 +9,7 @@ MANIFEST_BASE = {
         "guard": "verif",
         "enable": "go build/test -tags verif (the driver passes it on every build of /repo code)",
         "baseline_off_cmd": "cd /repo && go build ./... && go test -vet=off -count=1 -timeout 25m ./...",
-        "source_commits": [],
+        "source_commits": ["1a24631"],
         "add_only": True,
     },
     "engines": [
@@ -289,4 +289,35 @@ CHECKS["C13"] = {
         ]},
     ],
     "assumptions": ["queries carry padding records in the additional section to vary frame sizes (ignored by the proxy)"],
+}
+
+CHECKS["C04"] = {
+    "title": "Answers are never mixed up between concurrent queries",
+    "level": "exploration",
+    "level_text": "Generated concurrent workloads (8-48 clients over 2-6 listener kinds, question pools with repeats, 2-4 upstream kinds with delayed/reordered replies, cache off/large/tiny, short TTLs, GOMAXPROCS variation) run against the race-instrumented binary with the release-time poison hook; every response is checked against the keyed answer of its own question, and no poison octets may appear in any response or upstream query. Schedules are sampled by the OS - this is exploration of interleavings, made denser by drawn delays and by the hook which removes the dependence on when a recycled buffer is reused.",
+    "level_note": "Interleavings the OS never produces are not explored; a handful of lost UDP datagrams on a busy loopback is tolerated (<0.5%).",
+    "technique": "randomized concurrent workload generation (rapid) against the real binary under the race detector + poison hook; keyed-answer oracle",
+    "parts": [
+        {"engine": "E", "proxy": ["plain", "race"], "tests": [
+            {"run": "TestVfC04Mixups", "quick": 6, "thorough": 160, "shards_quick": 6, "shards_thorough": 8, "timeout_quick": 900, "timeout_thorough": 3500, "shrinktime": "90s"},
+        ]},
+    ],
+    "assumptions": ["fake upstream answers are a keyed function of the question only, so cached and fresh answers coincide"],
+}
+
+CHECKS["C20"] = {
+    "title": "Recycled memory is exclusively owned",
+    "level": "exploration",
+    "level_text": "Cancellation-rich generated workloads (expiring request contexts, killed upstream connections, clients disconnecting mid-pipeline, eviction pressure) against the -race -tags verif binary: zero data race reports, zero canary lines (double release / write after release detected by the quarantine), no poison octets in anything the proxy emits; plus the memory-cache hammer and the transport-level cancellation hammer under -race. This is schedule sampling - the weakest fit for generated-input search - strengthened by the hook, which turns any unsynchronised access to a released pool buffer into a race regardless of timing.",
+    "level_note": "Only buffers of internal/pool are poisoned; sync.Pool-recycled messages and records are covered by the race detector alone. Freedom from races on unsampled schedules is not shown.",
+    "technique": "randomized concurrent workload generation (rapid) under the Go race detector with release-time poisoning/quarantine instrumentation (build tag verif)",
+    "parts": [
+        {"engine": "E", "proxy": ["plain", "race"], "tests": [
+            {"run": "TestVfC20Workload", "quick": 4, "thorough": 96, "shards_quick": 4, "shards_thorough": 8, "timeout_quick": 900, "timeout_thorough": 3500, "shrinktime": "90s"},
+        ]},
+        {"engine": "P", "pkg": "internal/cache", "race": True, "tests": [
+            {"run": "TestVfC07MemCacheHammer", "quick": 80, "thorough": 3000, "shards_quick": 4, "shards_thorough": 8, "timeout_quick": 300},
+        ]},
+    ],
+    "assumptions": ["build tag verif enables the add-only hook in internal/pool (one call site in ReleaseBuf)"],
 }
